@@ -45,6 +45,11 @@ type Prog struct {
 	fieldStoresOnce bool
 	fieldStores map[*types.Var][]*ssa.Store
 	pktClosureSet map[*ssa.Function]bool
+	lockA *lockAnalysis
+	ctorCache map[*ssa.Function]bool
+	mutCache map[string]bool
+	sharedStoreCache map[string]bool
+	acqCache map[*ssa.Function]map[string]string
 	pathFactCache map[*ssa.Function]map[*ssa.BasicBlock][]disjunct
 	Fixture bool // analysing /verif/fixtures: engines use the fixture tables
 }
